@@ -11,7 +11,7 @@ def count_key(eng, v, X):
     if isinstance(v, CountBag):
         return v.c
     if isinstance(v, tuple):
-        e = eng.equals(v[0], X)
+        e = eng.equals(v[:len(X)], X) if isinstance(X, tuple) else eng.equals(v[0], X)
         if isinstance(e, bool):
             return z3.IntVal(1 if e else 0)
         return z3.If(e, z3.IntVal(1), z3.IntVal(0))
